@@ -439,12 +439,12 @@ pub fn run(args: &Args) -> ! {
         systematic(&mut ctx);
         let seed = v["seed"].as_u64().unwrap_or(1);
         ctx.seed = seed;
-        let n = if v["tier"] == "thorough" { 1_000_000 } else { 80_000 };
+        let n = if v["tier"] == "thorough" { 1_000_000 } else { 300_000 };
         random(&mut ctx, n);
         ctx.finish();
     }
     systematic(&mut ctx);
-    let n = ctx.tier.pick(80_000, 1_000_000);
+    let n = ctx.tier.pick(300_000, 1_000_000);
     random(&mut ctx, n);
     ctx.exhaustive = Some(false);
     ctx.finish()
